@@ -56,7 +56,7 @@ func ProposedFindings() []ProposedFinding {
 		{
 			Name:    kfTreePath,
 			What:    "interpreter cast errors never name the offending path (DeepCast of interpreter/value carries no field path)",
-			Sig:     `^c12:tree:api:reject-no-path:(field|index)$`,
+			Sig:     `^c12:tree:(api|as|let):reject-no-path:(field|index)$`,
 			Tag:     cTreePath,
 			Witness: witness("api", "tree", vu.Obj(vu.F("a", vu.Int())), cTreePath, pairSpec{V: vu.ObjV(vu.KV{K: "a", V: vu.StrV("x")})}),
 		},
